@@ -15,6 +15,8 @@ Lab(a) == /\ depth' = depth + 1 /\ lastAct' = a /\ UNCHANGED gate
 
 SimNext ==
   \/ \E i \in DOMAIN Menu : ClientSubmit(i) /\ Lab([c |-> "Submit", spec |-> i - 1, job |-> Menu[i].job])
+  \/ \E j \in DOMAIN OpenJobs : ClientOpen(j) /\ Lab([c |-> "Open", job |-> j])
+  \/ \E j \in DOMAIN OpenJobs : ClientClose(j) /\ Lab([c |-> "Close", job |-> j])
   \/ \E j \in DOMAIN job : depth >= gate.cancel /\ ClientCancel(j) /\ Lab([c |-> "Cancel", job |-> j])
   \/ Schedule /\ Lab([c |-> "Schedule"])
   \/ \E w \in DOMAIN wk : SrvRecv(w) /\ Lab([c |-> "W2S", w |-> w])
